@@ -692,14 +692,35 @@ func (r *Runner) RunSig(cases []SigCase, keyType crypto.KeyType) {
 			rc.DB.AddSchema(ctx, sdl)
 			before := dump(ctx, rc)
 			bserv := blockservice.New(rc.Blockstore(), srcExchange{a})
-			serr := net.VerifSyncDAG(ctx, bserv, forged)
-			accepted := serr == nil
-			if accepted {
-				link, _ := forged.GenerateLink()
-				cols, _ := rc.DB.GetCollections(ctx, client.CollectionFetchOptions{})
-				if merr := rc.Merge(ctx, cols[0].Version().CollectionID, docID, link.Cid); merr != nil {
-					accepted = false
+			type outcome struct {
+				serr     error
+				accepted bool
+			}
+			och := make(chan outcome, 1)
+			go func() {
+				o := outcome{}
+				sctx, cancel := context.WithTimeout(ctx, 25*time.Second)
+				defer cancel()
+				o.serr = net.VerifSyncDAG(sctx, bserv, forged)
+				o.accepted = o.serr == nil
+				if o.accepted {
+					link, _ := forged.GenerateLink()
+					cols, _ := rc.DB.GetCollections(ctx, client.CollectionFetchOptions{})
+					if merr := rc.Merge(ctx, cols[0].Version().CollectionID, docID, link.Cid); merr != nil {
+						o.accepted = false
+					}
 				}
+				och <- o
+			}()
+			var serr error
+			accepted := false
+			select {
+			case o := <-och:
+				serr, accepted = o.serr, o.accepted
+			case <-time.After(40 * time.Second):
+				r.violate("C12", "receiver-hang:"+c.Tamper+":"+c.Pos, c, "the receiver neither accepted nor refused a push whose %s carries tampering '%s' (%s key) within 40s", c.Pos, c.Tamper, keyType)
+				a.Close()
+				continue // the receiver is left behind: its goroutine is stuck
 			}
 			after := dump(ctx, rc)
 			if accepted != c.Accepted {
